@@ -85,7 +85,7 @@ pub fn numeric(cfg: &CssCfg) -> BoxedStrategy<VTok> {
 }
 
 pub fn string_value() -> BoxedStrategy<String> {
-    prop_oneof![Just("".to_string()), Just("a".to_string()), Just("a b".to_string()), Just("it's".to_string()), Just("q\"q".to_string()), Just("*/".to_string()), Just("\\".to_string()), Just("中 😀".to_string()), Just("a\nb".to_string()), Just("1rpx .a".to_string())].boxed()
+    prop_oneof![Just("".to_string()), Just("a".to_string()), Just("a b".to_string()), Just("it's".to_string()), Just("q\"q".to_string()), Just("*/".to_string()), Just("\\".to_string()), Just("中 😀".to_string()), Just("a\nb".to_string()), Just("1rpx .a".to_string()), Just("{".to_string()), Just("}".to_string()), Just("{{x}}".to_string()), Just("a{b;".to_string()), Just("t\tb".to_string()), Just("e\u{301}\u{200d}".to_string()), Just("\u{7f}(".to_string())].boxed()
 }
 
 pub fn calc_expr(cfg: &CssCfg, depth: u32) -> BoxedStrategy<CalcExpr> {
@@ -303,7 +303,8 @@ pub fn import(cfg: &CssCfg) -> BoxedStrategy<Node> {
     let path = prop_oneof![Just("./a"), Just("a/b.wxss"), Just("it's"), Just("q\"q"), Just("*/x"), Just("a b"), Just("100%"), Just("中/😀"), Just("a\\b*?"), Just("/* c */"), Just("x\ny")].prop_map(|s: &str| s.to_string());
     let form = prop_oneof![
         4 => path.clone().prop_map(ImportForm::Str),
-        2 => path.prop_map(ImportForm::UrlFn),
+        2 => path.clone().prop_map(ImportForm::UrlFn),
+        1 => (prop_oneof![Just("URL"), Just("Url"), Just("uRL")], path).prop_map(|(n, p): (&str, String)| ImportForm::UrlFnNamed(n.to_string(), p)),
         1 => prop_oneof![Just("foo.css"), Just("./a/b")].prop_map(|s: &str| ImportForm::Url(s.to_string())),
     ];
     (form, proptest::option::weighted(0.3, proptest::option::of(pick(PLAIN_CLASS_NAMES))), proptest::option::weighted(0.3, (pick(PROPS), proptest::collection::vec(numeric(cfg), 1..2))), proptest::option::weighted(0.4, media_cond(cfg, 1)))
